@@ -451,6 +451,35 @@ def text_hostile_strings(ctx):
             check_message(ctx, {'hostile': k, 'ids': ids, 'names': True}, toks, b, 'hostile-names-%d' % k)
 
 
+def large_subset_probe(ctx):
+    """a subset with more than 99 999 values: the five-character index column of the flat text overflows to '*****'
+    (fixed_width_repr_of_int; C09_flat_text_value_column covers it: the value still starts at column 81); the text must
+    convert back to all the values."""
+    from pybufrkit.decoder import Decoder
+    from pybufrkit.renderer import FlatTextRenderer, FlatJsonRenderer
+    from pybufrkit.utils import flat_text_to_flat_json
+    n = 50001
+    vals = [n]
+    for i in range(n):
+        vals += [i % 24, i % 60]
+    try:
+        with lib.time_limit(240):
+            b = B.encode_message([102000, 31002, 4004, 4005], [vals], False, 4, 33).serialized_bytes
+            m = Decoder().process(b)
+            flat = FlatJsonRenderer().render(m)
+            back = flat_text_to_flat_json(FlatTextRenderer().render(m))
+        ctx.count(('large-subset', n), True)
+        ctx.dist['large-subset (100003 values in one subset)'] += 1
+        if back != flat:
+            k = len(back[-2][-1][0]) if back and len(back) >= 2 and back[-2] and back[-2][-1] else None
+            ctx.violation({'kind': 'C09-converter-flat-text-large-subset', 'case': {'ids': [102000, 31002, 4004, 4005], 'count': n},
+                           'values_back': k, 'values': len(vals)},
+                          'flat text of a subset with %d values converts back to %s values' % (len(vals), k))
+    except Exception as e:
+        ctx.violation({'kind': 'C09-converter-flat-text-large-subset', 'case': {'ids': [102000, 31002, 4004, 4005], 'count': n},
+                       'error': lib.err_code(e)}, 'flat text of a subset with %d values does not convert back (%r)' % (len(vals), e))
+
+
 def zero_subsets_probe(ctx):
     """a message with no subset: both text renderers emit one empty line for the template data and the converters
     raise ValueError (the model: flat_td_ok / nested_td_ok require a subset; C09_text_zero_subsets_refuted).  Known finding
@@ -692,6 +721,7 @@ def run(ctx):
         check_message(ctx, {'file': os.path.basename(f)}, toks, b, os.path.basename(f))
     text_hostile_strings(ctx)
     zero_subsets_probe(ctx)
+    large_subset_probe(ctx)
     cli_four_formats(ctx)
     ctx.partial = ["C09_nested_text_221_refuted (D21): NestedTextRenderer prints elements skipped by 221YYY without a value",
                    "C09_text_zero_subsets_refuted: a message without any subset does not convert back from either text format",
@@ -703,6 +733,12 @@ def run(ctx):
 
 def replay(ctx, rec):
     c = rec['case']
+    if str(rec.get('kind', '')).startswith('C09-converter-flat-text-large-subset'):
+        large_subset_probe(ctx)
+        return {'violations': len(ctx.violations)}
+    if rec.get('kind') == 'C09-converter-zero-subsets':
+        zero_subsets_probe(ctx)
+        return {'violations': len(ctx.violations), 'known': 'D34'}
     if 'file' in c:
         return {'file': c['file']}
     if 'hostile' in c:
